@@ -197,10 +197,12 @@ type Explorer struct {
 	assumes     map[string]bool
 	forks       int64
 	allowPanic  bool
-	ufInputs    map[string][][]*Term // per UF name: argument lists seen (for optional injectivity)
+	ufApps      map[string][]ufApp // per uninterpreted function: applications made on this path
 	allocTotal  int64
 	allocBudget int64
 }
+
+type ufApp struct{ arg, app *Term }
 
 type pathAbort struct{ status, why string }
 type engineError struct{ msg string }
@@ -230,7 +232,7 @@ func (e *Explorer) reset(w workItem) {
 	e.assumes = map[string]bool{}
 	e.forks = 0
 	e.allowPanic = e.run.AllowPanic
-	e.ufInputs = map[string][][]*Term{}
+	e.ufApps = map[string][]ufApp{}
 	e.allocTotal, e.allocBudget = 0, 0
 }
 
